@@ -94,7 +94,38 @@ func (r *sessRun) doOp(prop string, o SOp, hist []SOp) stepReport {
 			return rep
 		}
 	}
+	before := newFidModelFrom(r.model)
 	exp := r.model.step(o, failedCall)
+	if exp.Skip && !res.OK() {
+		// The statement leaves open what a walk or create from an opened fid
+		// does - but an operation that FAILS must leave the table as it was,
+		// here as everywhere else.
+		r.model = before
+		got, probs := dumpImpl(r.sess)
+		r.noteBound()
+		for _, pr := range probs {
+			bad("table:"+firstWords(pr), "after %s: %s", o, pr)
+		}
+		if want := r.model.key(); got != want && len(probs) == 0 {
+			// a create whose file-system Create had already consumed the
+			// parent entry may leave the fid unbound instead (as for closed fids)
+			alt := newFidModelFrom(r.model)
+			delete(alt.Fids, o.Fid)
+			if o.Kind == "create" && o.Fail >= 1 && got == alt.key() {
+				r.model = alt
+			} else {
+				bad("failed-op-changed-table:"+o.Kind, "%s failed with %q, yet the fid table changed from {%s} to {%s}", o, res.Err, want, got)
+			}
+		}
+		for _, pr := range r.fs.Problems {
+			bad("fs:"+firstWords(pr), "after %s the file system observed: %s", o, pr)
+		}
+		if len(rep.Findings) > 0 {
+			r.poison = true
+		}
+		rep.Outcome = o.Kind + ":err(from an opened fid)"
+		return rep
+	}
 	if exp.Skip {
 		rep.Skip = true
 		return rep
@@ -282,6 +313,11 @@ func sessExec(prop string, maxDev int, extra func(r *sessRun, hist []SOp) []expl
 				res.Dead = true
 				res.Key = "skip"
 				res.Outcome = "not-in-alphabet"
+				if i == len(hist)-1 {
+					// the operation itself is outside the statement, its
+					// failing variants are not (a failed operation changes nothing)
+					res.Variants = r.variants(o, maxDev)
+				}
 				return res
 			}
 			if i == len(hist)-1 {
